@@ -20,7 +20,7 @@ for s in seeds:
     try:
         for p in props:
             t0=time.time()
-            c=sh("cd %s && MQV_NO_SHRINK=1 ./check %s --tier quick --scale 0.5" % (ROOT,p))
+            c=sh("cd %s && MQV_NO_SHRINK=1 timeout -k 5 420 ./check %s --tier quick --scale 0.5" % (ROOT,p))
             kinds=sorted(set(re.findall(r"^  ([A-Za-z]+):", c.stdout, re.M)))
             row[p]={"exit":c.returncode,"kinds":kinds,"s":round(time.time()-t0,1)}
             if c.returncode==2:
